@@ -149,11 +149,10 @@ def gen(prop, oracle, tier):
     sel = [(NONE, NONE), (FIREABLE, NONE), (RUNNING, NONE), (RUNNING, RUNNING), (RUNNING, ROLLBACK), (COMPLETED, RUNNING)]
     for pr in sel[:4] if quick else pairs:
         out.append(_spec(prop, oracle, "one", 1, pr, 2, two, dims="c", cond=big))
-        if not quick:
+        if not quick and pr in sel:
             out.append(_spec(prop, oracle, "one", 1, pr, 2, two, dims="d", cond=big))
-            out.append(_spec(prop, oracle, "one", 1, pr, 2, two, dims="m", cond=big))
     if not quick:
-        for pr in sel:
+        for pr in sel[:2]:
             for f in range(ncodes2):
                 out.append(_spec(prop, oracle, "one", 1, pr, 3, two, dims="c", cond=big, fix_first=f))
     # (3) three jobs, one step (and two steps in thorough)
@@ -166,7 +165,7 @@ def gen(prop, oracle, tier):
     # (4) other topologies
     heavy = [(RUNNING, NONE), (FIREABLE, NONE), (RUNNING, RUNNING), (ROLLBACK, NONE), (COMPLETED, NONE), (NONE, NONE), (NONE, RUNNING), (RUNNING, FIREABLE)]
     for pr in heavy[:6] if quick else heavy:
-        for Lx in (1,) if quick else (1, 2):
+        for Lx in (1,) if (quick or pr not in heavy[:3]) else (1, 2):
             d = "c" if (Lx == 2 or (quick and NONE not in pr)) else "cd"
             out.append(_spec(prop, oracle, "two", 2, pr, Lx, two, dims=d, cond=big, usage_sym=False))
             out.append(_spec(prop, oracle, "two_multi", 2, pr, Lx, two, dims=d, cond=big, usage_sym=False))
